@@ -130,7 +130,7 @@ def run(ctx, b, broken):
 
     def cpu_times(texts):
         p = subprocess.run([_sys.executable, os.path.join(os.path.dirname(os.path.dirname(os.path.abspath(__file__))), "parsetime.py")],
-                           input=json.dumps(texts), capture_output=True, text=True, timeout=2400, env=dict(os.environ, PYTHONHASHSEED="0"))
+                           input=json.dumps(texts), capture_output=True, text=True, env=dict(os.environ, PYTHONHASHSEED="0"))
         return json.loads(p.stdout) if p.returncode == 0 else [[-1.0, 0]] * len(texts)
     K = 1200 if ctx.tier == "quick" else 3000
     MULT = {"linemarkers": 8, "line-directives": 10, "pragmas": 10, "big-switch": 3, "switch-label-runs": 4, "big-struct": 4, "big-enum": 6, "big-initlist": 4,
@@ -146,10 +146,21 @@ def run(ctx, b, broken):
         ctx.evaluations += 1
         ctx.count("timed-family:" + name, int(1000 * max(b_, 0)))
         ctx.nontriv(("timed", name))
+        kf = [f for f in ctx.findings if f.get("timedfamily") == name]
+        if a == -2.0 or b_ == -2.0:
+            # the parse was stopped after 25 s of CPU time; these inputs take about half a second on the unchanged tree
+            if kf:
+                ctx.known(kf[0]["id"], kf[0]["what"])
+                continue
+            which = (small if a == -2.0 else large)[name]
+            su.violation(which[:300] + " ...", f"family {name}: parsing {len(which)} characters uses more than 25 s of CPU time (about 0.6 s when the cost is linear)", {"family": name, "k": K})
+            continue
+        if a == -3.0 or b_ == -3.0:
+            ctx.count("timed-family-not-measured-after-two-over-budget")
+            continue
         if a < 0 or b_ < 0:
             su.violation(small[name][:300], f"timed family {name} is not accepted")
             continue
-        kf = [f for f in ctx.findings if f.get("timedfamily") == name]
         # deterministic: the number of function calls (Python and C level) the parse makes
         if ca > 1000 and cb > 2.4 * ca:
             if kf:
